@@ -23,6 +23,7 @@ CONSTANTS Prefix,      \* prefixes
           Reject,      \* classes the export policy rejects
           SendMax,     \* 1 = plain session, >1 = add-path TX window
           MaxChan,     \* bound on undelivered notifications (state constraint)
+          OpKinds,     \* optional operation kinds explored ("filter")
           LidMode,     \* "abstract": local path id = source rank (finite, for exhaustive checking);
                        \* "real": the destination's counter as implemented (unbounded, for replayed walks)
           Dev
@@ -34,6 +35,8 @@ VARIABLE s
 
 Init ==
   s = [ rib    |-> [p \in Prefix |-> {}],
+        hid    |-> [p \in Prefix |-> {}],         \* paths the import policy rejects: [src, lid] - held by the table
+                                                  \* (they keep the destination and their path id) but never ranked
         did    |-> [p \in Prefix |-> 0],
         nlid   |-> [p \in Prefix |-> 1],          \* next local path id of the destination ("real" mode)
         llgr   |-> {},                            \* LLGR-stale sources
@@ -48,14 +51,19 @@ Content(st, x) == [src |-> x.src, cls |-> x.cls, ll |-> x.src \in st.llgr]
 
 Ops ==      [k : {"announce"}, src : Src, p : Prefix, cls : Cls]
        \cup [k : {"withdraw"}, src : Src, p : Prefix]
+       \* the source announces (or re-announces) the prefix in a form the import policy rejects
+       \cup [k : {"filter"}, src : Src, p : Prefix]
        \cup [k : {"peerdown", "markllgr"}, src : Src]
        \cup [k : {"deliver", "flush", "refresh", "newsession"}]
 
 Has(st, p, src) == \E x \in st.rib[p] : x.src = src
+Hid(st, p, src) == \E x \in st.hid[p] : x.src = src
+Holds(st, p, src) == Has(st, p, src) \/ Hid(st, p, src)
 
 Enabled(st, op) ==
-  CASE op.k = "withdraw" -> Has(st, op.p, op.src)
-    [] op.k = "peerdown" -> \E p \in Prefix : Has(st, p, op.src)
+  CASE op.k = "withdraw" -> Holds(st, op.p, op.src)
+    [] op.k = "filter"   -> "filter" \in OpKinds
+    [] op.k = "peerdown" -> \E p \in Prefix : Holds(st, p, op.src)
     [] op.k = "markllgr" -> op.src \notin st.llgr /\ (\E p \in Prefix : Has(st, p, op.src))
     [] op.k = "deliver"  -> st.chan # <<>>
     [] op.k = "flush"    -> st.reach # {} \/ st.unrch # {} \/ st.buf # {}
@@ -87,32 +95,52 @@ BestKey(st, p) == LET q == Ranked(st, p) IN
 PathOf(st, p, src) == CHOOSE x \in st.rib[p] : x.src = src
 
 \* announce / replace one path
+HidOf(st, p, src) == CHOOSE x \in st.hid[p] : x.src = src
+\* local path id of a path (re-)inserted by `src`: kept on replacement (of a ranked or of a rejected path); otherwise the
+\* destination's counter, which restarts at 1 for a (re-)created destination.  In "abstract" mode it is the source's rank.
+LidFor(st, p, src) ==
+  IF LidMode = "abstract" THEN SrcRank[src]
+  ELSE IF Has(st, p, src) THEN PathOf(st, p, src).lid
+  ELSE IF Hid(st, p, src) THEN HidOf(st, p, src).lid
+  ELSE IF st.rib[p] = {} /\ st.hid[p] = {} THEN 1 ELSE st.nlid[p]
+
 DoAnnounce(st, op) ==
-  LET had  == Has(st, op.p, op.src)
-      \* local path id: kept on replacement; otherwise the destination's counter, which restarts
-      \* at 1 for a (re-)created destination.  In "abstract" mode it is the source's rank.
-      lid  == IF LidMode = "abstract" THEN SrcRank[op.src]
-              ELSE IF had THEN PathOf(st, op.p, op.src).lid
-              ELSE IF st.rib[op.p] = {} THEN 1 ELSE st.nlid[op.p]
+  LET had  == Holds(st, op.p, op.src)
+      lid  == LidFor(st, op.p, op.src)
       x    == [src |-> op.src, cls |-> op.cls, lid |-> lid]
       id   == IF st.did[op.p] = 0 THEN FreeId(st) ELSE st.did[op.p]
       st2  == [st EXCEPT !.rib[op.p] = {y \in @ : y.src # op.src} \cup {x}, !.did[op.p] = id,
+                         !.hid[op.p] = {y \in @ : y.src # op.src},
                          !.nlid[op.p] = IF LidMode = "abstract" \/ had THEN @ ELSE lid + 1]
       n    == Note(op.p, id, BestKey(st, op.p) # BestKey(st2, op.p), TRUE, IF had THEN lid ELSE 0, Ranked(st2, op.p))
   IN [st2 EXCEPT !.chan = Append(@, n)]
 
+\* the source's path is (re-)inserted in a form the import policy rejects: it leaves the ranking but stays in the table.
+\* The change is announced only if an accepted path was replaced (nothing changes for anybody otherwise).
+DoFilter(st, op) ==
+  LET had  == Holds(st, op.p, op.src)
+      wasIn == Has(st, op.p, op.src)
+      lid  == LidFor(st, op.p, op.src)
+      id   == IF st.did[op.p] = 0 THEN FreeId(st) ELSE st.did[op.p]
+      st2  == [st EXCEPT !.rib[op.p] = {y \in @ : y.src # op.src}, !.did[op.p] = id,
+                         !.hid[op.p] = {y \in @ : y.src # op.src} \cup {[src |-> op.src, lid |-> lid]},
+                         !.nlid[op.p] = IF LidMode = "abstract" \/ had THEN @ ELSE lid + 1]
+      n    == Note(op.p, id, BestKey(st, op.p) # BestKey(st2, op.p), TRUE, lid, Ranked(st2, op.p))
+  IN IF wasIn THEN [st2 EXCEPT !.chan = Append(@, n)] ELSE st2
+
 \* remove the path of `src` from prefix p (one notification)
 RemoveOne(st, p, src) ==
-  LET st2 == [st EXCEPT !.rib[p] = {y \in @ : y.src # src}]
-      st3 == [st2 EXCEPT !.did[p] = IF st2.rib[p] = {} THEN 0 ELSE @]
+  LET st2 == [st EXCEPT !.rib[p] = {y \in @ : y.src # src}, !.hid[p] = {y \in @ : y.src # src}]
+      st3 == [st2 EXCEPT !.did[p] = IF st2.rib[p] = {} /\ st2.hid[p] = {} THEN 0 ELSE @]
       n   == Note(p, st.did[p], BestKey(st, p) # BestKey(st2, p), TRUE, 0, Ranked(st2, p))
-  IN [st3 EXCEPT !.chan = Append(@, n)]
+  IN \* the removal of a rejected path is nobody's business
+     IF Has(st, p, src) THEN [st3 EXCEPT !.chan = Append(@, n)] ELSE st3
 
 RECURSIVE RemoveAll(_, _, _)
 RemoveAll(st, ps, src) ==
   IF ps = {} THEN st
   ELSE LET p == CHOOSE x \in ps : TRUE IN
-       RemoveAll(IF Has(st, p, src) THEN RemoveOne(st, p, src) ELSE st, ps \ {p}, src)
+       RemoveAll(IF Holds(st, p, src) THEN RemoveOne(st, p, src) ELSE st, ps \ {p}, src)
 
 \* LLGR marking of a source: its paths sink in the ranking and their exported content gains
 \* LLGR_STALE; every prefix holding a path of that source is re-announced.  `old` is the
@@ -205,6 +233,7 @@ DoFlush(st) ==
 Step(st, op) ==
   CASE op.k = "announce" -> DoAnnounce(st, op)
     [] op.k = "withdraw" -> RemoveOne(st, op.p, op.src)
+    [] op.k = "filter"   -> DoFilter(st, op)
     [] op.k = "peerdown" -> [RemoveAll(st, Prefix, op.src) EXCEPT !.llgr = @ \ {op.src}]
     [] op.k = "markllgr" -> NotifyAll(st, [st EXCEPT !.llgr = @ \cup {op.src}], Prefix, op.src)
     [] op.k = "deliver"  -> Process([st EXCEPT !.chan = Tail(@)], Head(st.chan))
